@@ -44,6 +44,12 @@ var rep *kit.Reporter
 var F = []ref.Filter{{}, {Prefix: "a"}, {NotPrefix: "a"}, {Sub: "b"}, {Regex: "^a"}, {NotRegex: "b$"}}
 
 // names collide with every filter of F, before and after the rewrite a>b.
+// G: filters that combine several options whose literals overlap (a substring that starts inside
+// the prefix, a prefix and a longer notPrefix, ...): every option is evaluated on the whole name.
+// Used for the route filter and the destination filters of part b2.
+var G = []ref.Filter{{Prefix: "a", Sub: "ab"}, {Prefix: "a", NotSub: "ab"}, {Prefix: "a.", Sub: ".b"}, {Prefix: "a", NotPrefix: "ab"},
+	{Sub: "a", NotSub: "b"}, {Prefix: "a", Regex: "b$"}, {NotPrefix: "b", NotRegex: "^a"}, {Sub: "b", Regex: "^a", NotRegex: "x"}}
+
 var names = []string{"a", "b", "ab", "ba", "a.b", "b.a", "x", "x.a", "xb", "a.x"}
 
 const (
@@ -569,17 +575,17 @@ func partA(maxRoutes int, deep bool) (done bool) {
 // ---------------------------------------------------------------------------
 // part b: route level, real routes and destinations
 
-func partB(maxDests int) (done bool) {
-	l := newLive("b")
+func partB(part string, RF, F []ref.Filter, maxDests int) (done bool) {
+	l := newLive(part)
 	destLists := lists(len(F), 1, maxDests)
 	types := []string{ref.TypeAll, ref.TypeFirst, ref.TypeHashing}
-	total := len(types) * len(F) * len(destLists)
+	total := len(types) * len(RF) * len(destLists)
 	n := 0
 	for _, typ := range types {
-		for _, rf := range F {
+		for _, rf := range RF {
 			for _, dl := range destLists {
 				if time.Now().After(deadline) {
-					cutShort = fmt.Sprintf("part b stopped by the internal deadline after %d of %d routes", n, total)
+					cutShort = fmt.Sprintf("part %s stopped by the internal deadline after %d of %d routes", part, n, total)
 					return false
 				}
 				spec := ref.Route{Key: "r0", Type: typ, Filter: rf}
@@ -611,7 +617,7 @@ func partB(maxDests int) (done bool) {
 					}
 				}
 				if n == 0 || n == total/2 || n == total-1 || n == total/3 {
-					l.sample(fmt.Sprintf("route %d of %d in part b", n+1, total))
+					l.sample(fmt.Sprintf("route %d of %d in part %s", n+1, total, part))
 				}
 				n++
 				l.endTable()
@@ -771,7 +777,8 @@ func main() {
 		maxRoutes, nRw = 4, 4
 	}
 	// cheapest and most local first: routes, then tables, then combinations
-	doneB := partB(3)
+	doneB := partB("b", F, F, 3)
+	doneB = doneB && !stop() && rep.Infra == "" && partB("b2", append([]ref.Filter{{}}, G...), G, 2)
 	doneA := !stop() && rep.Infra == "" && partA(maxRoutes, rep.Thorough())
 	doneC := !stop() && rep.Infra == "" && partC()
 
@@ -779,6 +786,7 @@ func main() {
 		"filter alphabet F = " + fmt.Sprint(F) + "; names " + strings.Join(names, " ") + "; every line is '<name> 1 1000' and passes validation (checked per dispatch: in +1, invalid +0)",
 		fmt.Sprintf("part a: blacklists F^0..F^2 (ordered) x %d rewriter set-ups (none; a>b; thorough also [a>b,b>x] and [b>x,a>b]) x 13 aggregation set-ups (none; keep|drop x ^a|b$; both regexes in either order x keep|drop each) x ordered lists of 0..%d capture routes over F x 10 names, through the real Table.Dispatch on one long-lived table reconfigured with Add*/Del*", nRw, maxRoutes),
 		"part b: {sendAllMatch, sendFirstMatch, consistentHashing} built by the real constructors x 6 route filters x ordered lists of 1..3 real destinations over F, on the refusing port 127.0.0.1:1 with spooling off; deliveries read from each destination's conn_down_no_spool counter after the exact barrier Destination.Flush; driven through Table.Dispatch",
+		"part b2: the same with filters that combine options with overlapping literals, G = " + fmt.Sprint(G) + ": route filter from {none} + G x ordered lists of 1..2 destinations over G",
 		"part c: 3 aggregation set-ups x 2 rewriters x 3 blacklists x every ordered pair of 5 real route shapes x 10 names",
 		"aggregators: aggregator.NewMocked with a clock standing at 1000 and a tick channel that never fires; what an aggregator took is its numIn counter after harn.AggRest",
 		"consistentHashing: exactly one destination per accepted metric and the same one on a repeated dispatch; which one is C15's subject. Where the destinations of a hashing route carry filters the statement is silent, only 'at most one' is demanded there",
